@@ -156,7 +156,7 @@ func devProp(c DevCase) error {
 		select {
 		case ev := <-ch:
 			return ev, true
-		case <-time.After(guardTime):
+		case <-pbt.After(guardTime):
 			return nil, false
 		}
 	}(); !ok || ev != nil {
